@@ -138,7 +138,7 @@ func lruParse(lines []string) (cap int, ops []lruOp) {
 }
 
 func runLRU(cfg *config) {
-	id := 0
+	id := cfg.nextID
 	if cfg.replay != nil {
 		for _, c := range cfg.replay {
 			id++
